@@ -45,7 +45,12 @@ def execute(m, p):
         m.rpc(new_ele('q%d' % p[1]))
         return
     if p[0] == 'R':
-        raise BodyError(p[1])
+        # bodies fail in different ways: application error, a TransportError from elsewhere, a timeout of a nested call
+        from ncclient.transport.errors import TransportError
+        from ncclient.operations.errors import TimeoutExpiredError
+        e = {1: BodyError, 2: TransportError, 3: TimeoutExpiredError}[p[1]](p[1])
+        e.verif_kind = p[1]
+        raise e
     if p[0] == ';':
         execute(m, p[1])
         execute(m, p[2])
@@ -55,11 +60,12 @@ def execute(m, p):
 
 
 def reply(mid, ans, ev='m'):
+    one = lambda sev: '<rpc-error><error-type>protocol</error-type><error-tag>lock-denied</error-tag><error-severity>%s</error-severity><error-message>%s</error-message></rpc-error>' % (sev, ev)
     if ans == 'o':
         body = '<ok/>'
     else:
-        sev = 'error' if ans == 'e' else 'warning'
-        body = '<rpc-error><error-type>protocol</error-type><error-tag>lock-denied</error-tag><error-severity>%s</error-severity><error-message>%s</error-message></rpc-error>' % (sev, ev)
+        # 'e' error, 'w' warning, 'x' = warning then error, 'y' = error then warning (both count as an error answer)
+        body = {'e': one('error'), 'w': one('warning'), 'x': one('warning') + one('error'), 'y': one('error') + one('warning')}[ans]
     return '<rpc-reply message-id="%s" xmlns="%s">%s</rpc-reply>' % (mid, BASE_NS, body)
 
 
@@ -88,7 +94,7 @@ class C13(Check):
         for _ in range(n):
             p = gen_prog(rng)
             k = size(p) * 2
-            ans = [rng.choice('ooooeww') for _ in range(rng.randint(0, k))]
+            ans = [rng.choice('ooooewwxy') for _ in range(rng.randint(0, k))]
             out.append({'prog': p, 'ans': ans})
         return out
 
@@ -109,16 +115,18 @@ class C13(Check):
         exc = '-'
         try:
             execute(m, case['prog'])
-        except BodyError as e:
-            exc = 'body:%d' % e.args[0]
         except RPCError as e:
-            exc = 'rpc:' + str(e.message)
+            exc = 'rpc:' + str(e.message).split('\n')[0].split(': ')[-1]
         except Exception as e:
-            exc = 'other:' + type(e).__name__
+            if hasattr(e, 'verif_kind'):
+                exc = 'body:%d' % e.verif_kind
+            else:
+                exc = 'other:' + type(e).__name__
         return {'trace': seen, 'exc': exc}
 
     def model_lines(self, case):
-        return ['lk run %s %s' % (','.join(case['ans']) or '_', ' '.join(tokens(case['prog'])))]
+        ans = ['e' if a in 'xy' else a for a in case['ans']]
+        return ['lk run %s %s' % (','.join(ans) or '_', ' '.join(tokens(case['prog'])))]
 
     def model_obs(self, case, outs):
         t, x = outs[0].split(' ')
@@ -136,7 +144,7 @@ class C13(Check):
             a = ans[i] if i < len(ans) else 'o'
             kind, _, arg = ev.partition(':')
             if kind == 'lock':
-                if a != 'e':
+                if a not in 'exy':
                     stack.append(arg)
             elif kind == 'unlock':
                 if not stack or stack[-1] != arg:
